@@ -164,7 +164,13 @@ class FnInfo:
         self._alias_defs_done = False
 
     def _is_refty(self, l):
-        return self.b.locals[l]["ty"].get("k") in ("ref", "ptr")
+        ty = self.b.locals[l]["ty"]
+        if ty.get("k") in ("ref", "ptr"):
+            return True
+        # Option<&mut T> / Result<&T, E> temporaries (get_mut(..), as_mut(), first(), ...) are views too
+        if ty.get("k") == "adt" and ty["id"].split("::")[-1] in ("Option", "Result") and ty.get("args"):
+            return ty["args"][0].get("k") in ("ref", "ptr")
+        return False
 
     @staticmethod
     def _through_deref(p):
@@ -600,6 +606,23 @@ class Flow:
             cut = min(cut, self._q_operand(fid, args[1], (), acc_idx))
             acc |= {s for s in acc_idx if s[0] != "const"}
             return min(cut, self._q_operand(fid, args[0], (e,) + tuple(rest), acc))
+        if re.search(r"Into<.*>>::into$|::into$", name) and args:
+            ra = c.get("rargs") or c.get("gargs") or []
+            if len(ra) >= 2:
+                frm = self._from_impl(ra[0], ra[1])
+                if frm is not None:
+                    return self._apply_summary(fid, frm, args, 0, rest, acc, name)
+        if re.search(r"(SlotMap|HashMap|BTreeMap)<.*>::(drain|iter|iter_mut|into_iter)$|(SlotMap|HashMap|BTreeMap)<.*> as std::iter::IntoIterator>::into_iter$", name) and args:
+            # iteration over a keyed container yields (key, value) pairs: element path '1' is the stored value
+            r2 = list(rest)
+            if r2 and r2[0] == "[*]":
+                r2 = r2[1:]
+            if r2 and r2[0] == "1":
+                acc.add(("via", short(name)))
+                return self._q_operand(fid, args[0], tuple(r2[1:]), acc)
+            if r2 and r2[0] == "0":
+                acc.add(("via", short(name)))
+                return self._q_operand(fid, args[0], ("#d",), acc)
         for rx, fields in CONSTRUCTORS:
             if rx.search(name):
                 if rest and rest[0] in fields:
@@ -627,6 +650,24 @@ class Flow:
         for a in args:
             cut = min(cut, self._q_operand(fid, a, marker, acc))
         return cut
+
+    def _from_impl(self, src_ty, dst_ty):
+        """workspace `impl From<src> for dst` function id, matched on the last path segment of both types"""
+        key = (src_ty, dst_ty)
+        cache = self.__dict__.setdefault("_from_cache", {})
+        if key in cache:
+            return cache[key]
+        last = lambda t: re.sub(r"<.*$", "", t).split("::")[-1].strip("&' ")
+        s_, d_ = last(src_ty), last(dst_ty)
+        found = []
+        if s_ and d_ and s_ != d_:
+            for f in self.F.fns.values():
+                if f.trait and f.trait.startswith("std::convert::From<") and f.self_ty and f.short.endswith("::from"):
+                    m = re.match(r"std::convert::From<(.*)>$", f.trait)
+                    if m and last(m.group(1)) == s_ and last(f.self_ty.get("s", "")) == d_:
+                        found.append(f.id)
+        cache[key] = found[0] if len(found) == 1 else None
+        return cache[key]
 
     def _subst(self, fid, srcs, args, acc, env=None, env_fid=None):
         """map callee-relative sources to caller sources"""
